@@ -398,17 +398,21 @@ def run(world, inc, lab_dir, disk_dir, t0):
         kwargs = materialise_kwargs(ctx, scn, model)
         run_kwargs = dict(scn.get("run_kwargs", {}))
         run_kwargs.setdefault("plot", False)
-        rsha = None
+        rsha = rsha_old = None
         if world.get("note_resume_sha"):
             import hashlib
             from .disk import _real_open
 
-            try:
-                with _real_open(os.path.join(scn.get("output", "out"), resume_name), "rb") as fh:
-                    rsha = hashlib.sha1(fh.read()).hexdigest()
-            except OSError:
-                rsha = None
-        nb.note("start", seed=seed, plan=plan, pid_independent=True, resume_sha=rsha)
+            def _sha(name):
+                try:
+                    with _real_open(os.path.join(scn.get("output", "out"), name), "rb") as fh:
+                        return hashlib.sha1(fh.read()).hexdigest()
+                except OSError:
+                    return None
+
+            rsha = _sha(resume_name)
+            rsha_old = _sha(resume_name + ".old")
+        nb.note("start", seed=seed, plan=plan, pid_independent=True, resume_sha=rsha, resume_old_sha=rsha_old)
         from nessai.flowsampler import FlowSampler
 
         tracer.start()
